@@ -122,47 +122,67 @@ BODIES = [
 MODULE_SCENARIOS = [("global-writes-are-seen-by-every-warmed-read", 'import "gmod";\nvar g = 0;\nfn get() { return g; }\nfn get_str() { return "g=${g}"; }\n#[constructor(new)] class R { fn get(self) { return g; } }\nvar r = R.new();\nvar lam = || g;\nvar fib = Fiber.new(|| { while true { Fiber.yield(g); } });\nfn all() { return [get(), get_str(), r.get(), lam(), fib.call(), g]; }\nprint(all()); print(all());\ng = 1; print(all());\nfn setter(v) { g = v; } setter(2); print(all());\ng += 1; print(all());\nvar g = 4; print(all());\n{ var h = || { g = 5; }; h(); } print(all());\ngmod.set_main_g(|v| { g = v; }, 6); print(all());\nfn g_as_fn() { return 7; } print(get() == 0);\ntry { g = nil + 1; } catch e { print(all()); }\n// the module\'s global through every write route, read by the module\'s own (warmed) functions\nprint(gmod.all()); print(gmod.all());\ngmod.level = 1; print(gmod.all());\ngmod.set_level(2); print(gmod.all());\ngmod.level += 1; print(gmod.all());\nvar alias = gmod; alias.level = 4; print(gmod.all());\ngmod.bump(); print(gmod.all());\ngmod.fresh = "new attribute"; print(gmod.read_fresh());\ngmod.fresh = "changed"; print(gmod.read_fresh());\ngmod.helper = |x| x + 100; print(gmod.use_helper(1));\ngmod.helper = |x| x + 200; print(gmod.use_helper(1));\nprint(gmod.level);\n', {"gmod": 'var level = 0;\nfn current() { return level; }\nfn describe() { return "level=${level}"; }\nvar lam = || level;\n#[constructor(new)] class R { fn get(self) { return level; } }\nvar r = R.new();\nfn all() { return [current(), describe(), lam(), r.get(), level]; }\nfn set_level(v) { level = v; }\nfn bump() { level += 1; }\nfn set_main_g(f, v) { f(v); }\nfn read_fresh() { return fresh; }\nfn helper(x) { return x; }\nfn use_helper(x) { return helper(x); }\n'}, ['[0, g=0, 0, 0, 0, 0]', '[0, g=0, 0, 0, 0, 0]', '[1, g=1, 1, 1, 1, 1]', '[2, g=2, 2, 2, 2, 2]', '[3, g=3, 3, 3, 3, 3]', '[4, g=4, 4, 4, 4, 4]', '[5, g=5, 5, 5, 5, 5]', '[6, g=6, 6, 6, 6, 6]', 'false', '[6, g=6, 6, 6, 6, 6]', '[0, level=0, 0, 0, 0]', '[0, level=0, 0, 0, 0]', '[1, level=1, 1, 1, 1]', '[2, level=2, 2, 2, 2]', '[3, level=3, 3, 3, 3]', '[4, level=4, 4, 4, 4]', '[5, level=5, 5, 5, 5]', 'new attribute', 'changed', '101', '201', '5'])]
 
 
-def resolution_grid():
+BUILTIN_NAMES = {"type": "<built-in fn type>", "clock": "<built-in fn clock>", "Fiber": "<class Fiber>", "StopIter": "<class StopIter>"}
+
+
+def deep_nesting_programs():
+    """A variable declared N block levels deep (N around 256 and beyond) shadows an outer one of the same name that a closure captured: inside
+    it is the inner one, after its block has ended every use - in the function, in a closure, at module level - reaches the outer one again,
+    and writes reach what the closure captured."""
+    out = []
+    for n in (3, 254, 255, 256, 257, 300, 513):
+        src = ("var name = \"global\";\nfn f() {\n    var name = \"outer\";\n    var get = || name;\n    var seen = [];\n" + "    {\n" * n +
+               "    var name = \"inner\"; var pad = 1;\n    seen.push(name);\n    seen.push((|| name)());\n" + "    }\n" * n +
+               "    seen.push(name);\n    name = name + \"!\";\n    seen.push(get());\n    { var name = \"again\"; seen.push(name); }\n    seen.push(name);\n    return seen;\n}\n"
+               "print(f());\nprint(name);\n")
+        out.append(("deepnest:%d" % n, src, ("ok", ["[inner, inner, outer, outer!, again, outer!]", "global"])))
+    return out
+
+
+def resolution_grid(name="a"):
     """Which declaration does a use of `a` refer to?  Declarations of `a` are present or absent at every level (module global, the
     function, an enclosing block, a sibling block that has ended, the statement whose initialiser holds the use, a later statement of the
     same block); the use is written directly, inside a lambda, inside a lambda in a lambda, or inside a nested function.  The expected
     answer is computed here from the rule of the property (innermost enclosing declaration that precedes the use; else the module global;
     a variable is not in scope in its own initialiser: the language rejects that use)."""
     out = []
-    uses = {"direct": "a", "lambda": "(|| a)()", "lambda2": "(|| (|| a)())()", "fn": "g()"}
+    a = name
+    uses = {"direct": a, "lambda": "(|| %s)()" % a, "lambda2": "(|| (|| %s)())()" % a, "fn": "g()"}
     for bits in range(64):
         G, F, B, S, I, L = [(bits >> k) & 1 for k in range(6)]
         for uk, use in uses.items():
             lines = []
             if G:
-                lines.append('var a = "G";')
+                lines.append('var %s = "G";' % a)
             lines.append("fn f() {")
             if F:
-                lines.append('    var a = "F";')
+                lines.append('    var %s = "F";' % a)
             lines.append("    {")
             if S:
-                lines.append('        { var a = "S"; }')
+                lines.append('        { var %s = "S"; }' % a)
             if B:
-                lines.append('        var a = "B";')
+                lines.append('        var %s = "B";' % a)
             lines += ["        {", "            {"]
             if uk == "fn":
-                lines.append("                fn g() { return a; }")
+                lines.append("                fn g() { return %s; }" % a)
             if I:
-                lines += ["                var a = %s;" % use, "                print(a);"]
+                lines += ["                var %s = %s;" % (a, use), "                print(%s);" % a]
             else:
                 lines.append("                print(%s);" % use)
             lines.append("            }")
             if L:
-                lines.append('            var a = "L";')
+                lines.append('            var %s = "L";' % a)
             lines += ["        }", "    }", "}", "f();", 'print("done");']
             bound = "B" if B else "F" if F else "G" if G else None
             if I and uk != "fn":
                 exp = ("compile", "Cannot read local variable in its own initialiser.")
+            elif bound is None and name in BUILTIN_NAMES:
+                exp = ("ok", [BUILTIN_NAMES[name], "done"])      # a name that is a built-in global is that global when nothing declares it
             elif bound is None:
                 exp = ("name-error",)
             else:
                 exp = ("ok", [bound, "done"])
-            out.append(("resolve:%d%d%d%d%d%d/%s" % (G, F, B, S, I, L, uk), "\n".join(lines) + "\n", exp))
+            out.append(("resolve%s:%d%d%d%d%d%d/%s" % ("" if name == "a" else "-" + name, G, F, B, S, I, L, uk), "\n".join(lines) + "\n", exp))
     return out
 
 
@@ -176,7 +196,8 @@ def fixed_expectation_programs():
         v["toplevel"] = "\n".join(body) + "\n"
         for k, src in v.items():
             out.append(("scenario%d:%s" % (i, k), src, ("ok", list(expected))))
-    return out + resolution_grid()
+    # the same grid with the variable named like a built-in global (a local or a parameter called `type` is an ordinary variable)
+    return out + resolution_grid() + [p for nm in BUILTIN_NAMES for p in resolution_grid(nm)] + deep_nesting_programs()
 
 
 def meets(o, exp):
